@@ -35,6 +35,10 @@ type task struct {
 	running   bool
 	output    interface{}
 	expiresAt time.Time
+
+	// Set by the garbage collector once it has removed the task from the
+	// Limiter. Callers which looked the task up before that must not use it.
+	deleted bool
 }
 
 func newTask(input interface{}) *task {
@@ -74,35 +78,49 @@ func NewLimiter(clk clock.Clock, runner TaskRunner) *Limiter {
 func (l *Limiter) Run(input interface{}) interface{} {
 	l.gc.Trap()
 
-	l.RLock()
-	t, ok := l.tasks[input]
-	l.RUnlock()
-	if !ok {
-		// Slow path, must initialize task struct under global write lock.
-		l.Lock()
-		t, ok = l.tasks[input]
+	// We must take care to handle a race condition against the garbage
+	// collector: it may remove a task after we looked it up but before we
+	// acquired the task lock. Such a task is marked as deleted, in which case
+	// we have no choice but to reload the task.
+	for {
+		l.RLock()
+		t, ok := l.tasks[input]
+		l.RUnlock()
 		if !ok {
-			t = newTask(input)
-			l.tasks[input] = t
+			// Slow path, must initialize task struct under global write lock.
+			l.Lock()
+			t, ok = l.tasks[input]
+			if !ok {
+				t = newTask(input)
+				l.tasks[input] = t
+			}
+			l.Unlock()
 		}
-		l.Unlock()
+		verifPoint("looked-up", input)
+		if output, ok := l.getOutput(t); ok {
+			return output
+		}
 	}
-	verifPoint("looked-up", input)
-	return l.getOutput(t)
 }
 
-func (l *Limiter) getOutput(t *task) interface{} {
+// getOutput returns false if t has been garbage collected.
+func (l *Limiter) getOutput(t *task) (interface{}, bool) {
 	t.cond.L.Lock()
+
+	if t.deleted {
+		t.cond.L.Unlock()
+		return nil, false
+	}
 
 	if !t.expired(l.clk.Now()) {
 		defer t.cond.L.Unlock()
-		return t.output
+		return t.output, true
 	}
 
 	if t.running {
 		t.cond.Wait()
 		defer t.cond.L.Unlock()
-		return t.output
+		return t.output, true
 	}
 
 	t.running = true
@@ -118,7 +136,7 @@ func (l *Limiter) getOutput(t *task) interface{} {
 
 	t.cond.Broadcast()
 
-	return output
+	return output, true
 }
 
 type limiterTaskGC struct {
@@ -132,6 +150,9 @@ func (gc *limiterTaskGC) Run() {
 	for input, t := range gc.limiter.tasks {
 		t.cond.L.Lock()
 		expired := t.expired(gc.limiter.clk.Now()) && !t.running
+		if expired {
+			t.deleted = true
+		}
 		t.cond.L.Unlock()
 		if expired {
 			delete(gc.limiter.tasks, input)
